@@ -255,3 +255,7 @@ _bat = replay.battery('C11/driver.cpp', ['battery'])
 for _u in UNITS:
     if _u.name.startswith('WebSocket'):
         _u.replay = replay.first_of(_u.replay, _bat) if _u.replay else _bat
+
+# planted one-token breaks for the newer units (thorough tier: each must make an obligation fail)
+msg_string.planted = [('ms', r'STRING_FROM_BYTES\(\)', 'STRING_FROM_CSTR()')]
+hs_names.planted = [('hn', r'int k = 0', 'int k = 1')]
